@@ -138,8 +138,9 @@ class Curve(BSpline.Curve):
 
     @ctrlpts.setter
     def ctrlpts(self, value):
-        # Check if we can retrieve the existing weights. If not, generate a weights vector of 1.0s.
-        if not self.weights:
+        # Check if we can retrieve the existing weights (they belong to a control points array of the same size).
+        # If not, generate a weights vector of 1.0s.
+        if not self.weights or len(self.weights) != len(value):
             weights = [1.0 for _ in range(len(value))]
         else:
             weights = self.weights
@@ -172,6 +173,8 @@ class Curve(BSpline.Curve):
     def weights(self, value):
         if not self.ctrlpts:
             raise ValueError("Set control points first")
+        if len(value) != len(self.ctrlpts):
+            raise ValueError("Number of weights must be equal to the number of control points")
 
         # Generate weighted control points using the new weights
         ctrlptsw = compatibility.combine_ctrlpts_weights(self.ctrlpts, value)
@@ -343,8 +346,9 @@ class Surface(BSpline.Surface):
         if self.ctrlpts_size_u <= 0 or self.ctrlpts_size_v <= 0:
             raise ValueError("Please set the number of control points on the u- and v-directions")
 
-        # Check if we can retrieve the existing weights. If not, generate a weights vector of 1.0s.
-        if not self.weights:
+        # Check if we can retrieve the existing weights (they belong to a control points array of the same size).
+        # If not, generate a weights vector of 1.0s.
+        if not self.weights or len(self.weights) != len(value):
             weights = [1.0 for _ in range(len(value))]
         else:
             weights = self.weights
@@ -373,6 +377,8 @@ class Surface(BSpline.Surface):
     def weights(self, value):
         if not self.ctrlpts:
             raise ValueError("Set control points first")
+        if len(value) != len(self.ctrlpts):
+            raise ValueError("Number of weights must be equal to the number of control points")
 
         # Generate weighted control points using the new weights
         ctrlptsw = compatibility.combine_ctrlpts_weights(self.ctrlpts, value)
@@ -531,8 +537,9 @@ class Volume(BSpline.Volume):
         if self.ctrlpts_size_u <= 0 or self.ctrlpts_size_v <= 0 or self.ctrlpts_size_w <= 0:
             raise ValueError("Please set the number of control points for all u-, v- and w-directions")
 
-        # Check if we can retrieve the existing weights. If not, generate a weights vector of 1.0s.
-        if not self.weights:
+        # Check if we can retrieve the existing weights (they belong to a control points array of the same size).
+        # If not, generate a weights vector of 1.0s.
+        if not self.weights or len(self.weights) != len(value):
             weights = [1.0 for _ in range(len(value))]
         else:
             weights = self.weights
@@ -561,6 +568,8 @@ class Volume(BSpline.Volume):
     def weights(self, value):
         if not self.ctrlpts:
             raise ValueError("Set control points first")
+        if len(value) != len(self.ctrlpts):
+            raise ValueError("Number of weights must be equal to the number of control points")
 
         # Generate weighted control points using the new weights
         ctrlptsw = compatibility.combine_ctrlpts_weights(self.ctrlpts, value)
